@@ -19,6 +19,16 @@ Theorem C02_merge_arith : forall outer inner x c1 c2 op' c',
   forall v, rt_binop inner x c1 = Val v -> rt_binop outer v c2 = rt_binop op' x c'.
 Proof. exact merge_arith_ok. Qed.
 
+(* merging two additions never introduces an overflow (the sum of the constants must be representable) *)
+Theorem C02_merge_plus_no_new_overflow : forall x c1 c2 op' c',
+  merge_binop PLUS PLUS c1 c2 = Some (op', c') -> in32 (x + c1) -> in32 (x + c1 + c2) ->
+  op' = PLUS /\ in32 c' /\ in32 (x + c') /\ x + c' = x + c1 + c2.
+Proof. exact merge_plus_no_new_overflow. Qed.
+
+Theorem C02_merge_plus_wrapping_old_refuted :
+  exists x c1 c2, in32 (x + c1) /\ in32 (x + c1 + c2) /\ ~ in32 (x + wrap32 (c1 + c2)).
+Proof. exact merge_plus_wrapping_old_refuted. Qed.
+
 (* (x + c1) cmp c2 ~~> x cmp (c2 - c1), when the unoptimised addition did not overflow *)
 Theorem C02_merge_cmp : forall op x c1 c2 op' c',
   is_cmp op = true -> merge_binop op PLUS c1 c2 = Some (op', c') -> in32 (x + c1) ->
@@ -60,6 +70,8 @@ Print Assumptions C02_fold_correct.
 Print Assumptions C02_fold_declines_only_on_traps.
 Print Assumptions C02_merge_arith.
 Print Assumptions C02_merge_cmp.
+Print Assumptions C02_merge_plus_no_new_overflow.
+Print Assumptions C02_merge_plus_wrapping_old_refuted.
 Print Assumptions C02_trip_count_exact.
 Print Assumptions C02_unwrap_minus.
 Print Assumptions C02_flexible_order.
